@@ -297,6 +297,22 @@ func (r *ref) number() interface{} {
 	return floatLit{string(r.in[start:r.p])}
 }
 
+// trailingSeparator: a separator directly followed (after permitted
+// whitespace) by the closing bracket: a value is missing, rejected by both.
+func (r *ref) trailingSeparator(closing byte) bool {
+	save := r.p
+	r.ws(true)
+	if r.st != stValue {
+		return true
+	}
+	if r.p < len(r.in) && r.in[r.p] == closing {
+		r.fail(stReject)
+		return true
+	}
+	r.p = save
+	return false
+}
+
 func (r *ref) word(w string) bool {
 	if r.p+len(w) > len(r.in) {
 		return false
@@ -381,6 +397,9 @@ func (r *ref) value(depth int) interface{} {
 				return nil
 			}
 			r.p++
+			if r.trailingSeparator(']') {
+				return nil
+			}
 		}
 	case b == '{':
 		r.p++
@@ -443,6 +462,9 @@ func (r *ref) value(depth int) interface{} {
 				return nil
 			}
 			r.p++
+			if r.trailingSeparator('}') {
+				return nil
+			}
 		}
 	}
 	for _, w := range []string{"true", "false", "null"} {
